@@ -146,6 +146,13 @@ def _frames(s: Stream, p, nsteps: int, rev: bool, stop_extra: bool) -> dict:
         fr["storage"] = "i2"
         # each component packed to its own range, as ROMS post-processing does
         fr["scale"] = [s.pick([1.0e-4, 5.0e-5, 2.5e-4]), s.pick([1.0e-4, 2.0e-4, 2.5e-5])]
+    if fr.get("split") and s.chance(0.35):
+        # every file written (and packed) on its own: own scale factors, packed and float files mixed
+        fr["per_file"] = [
+            {"storage": s.pick(["i2", "i2", "f4"]),
+             "scale": [s.pick([1.0e-4, 5.0e-5, 2.5e-4, 2.0e-5]), s.pick([1.0e-4, 2.0e-4, 2.5e-5, 4.0e-5])]}
+            for _ in fr["split"]
+        ]
     return fr
 
 
@@ -238,14 +245,36 @@ def _position(s: Stream, p, sc, cells) -> tuple[float, float]:
     return round(x, 4), round(y, 4)
 
 
+def _level_depths_as_loaded(sc, j: int, i: int):
+    """depths of the rho levels of cell (j, i) exactly as the code under test computes them from the
+    files the world writer produces (used only to craft an input that sits exactly on a level)"""
+    try:
+        from ladim.ROMS import s_stretch, sdepth
+    except Exception:  # noqa: BLE001
+        return None
+    v = truth.vert(sc)
+    if v.get("source") == "vinfo":
+        C = s_stretch(v["N"], v["theta_s"], v["theta_b"], stagger="rho", Vstretching=v["Vstretching"])
+    else:
+        C = truth.stretching(v["N"], v["theta_s"], v["theta_b"], v["Vstretching"])
+    H = truth.bathymetry(sc)[j:j + 1, i:i + 1]
+    return sdepth(H, float(v["hc"]), C, stagger="rho", Vtransform=v["Vtransform"])[:, 0, 0]
+
+
 def _depth(s: Stream, sc, x: float, y: float) -> float:
     h = truth.bathymetry(sc)
-    hh = float(h[int(round(y)), int(round(x))])
+    j, i = int(round(y)), int(round(x))
+    hh = float(h[j, i])
     r = s.random()
     if r < 0.1:
         return 0.0
     if r < 0.2:
         return round(hh, 6)
+    if r < 0.32:
+        zr = _level_depths_as_loaded(sc, j, i)
+        if zr is not None:
+            k = s.pick([0, len(zr) - 1, s.randrange(len(zr))])
+            return float(-zr[k])          # exactly on an s-level (top, bottom or any)
     return round(s.uniform(0.0, hh), 3)
 
 
@@ -506,8 +535,10 @@ def features(sc) -> set[str]:
     steps = sorted(sg * o for o in offs)
     if 0 not in steps:
         f.add("start_between_frames")
-    if fr.get("storage") == "i2":
+    if fr.get("storage") == "i2" or any(x.get("storage") == "i2" for x in fr.get("per_file") or []):
         f.add("packed")
+    if fr.get("per_file"):
+        f.add("per_file_packing")
     if g.get("subgrid"):
         f.add("subgrid")
     if g.get("mask", "open") != "open":
